@@ -287,7 +287,7 @@ def run(m: Model, r: Report, tier: str) -> None:
     mem = _sq3.connect(":memory:")
     for lp, vname, expr in binds_v:
         what = "state" if "state" in ast.unparse(lp.iter) else "properties"
-        samples = [5, 1.5, True] if what == "state" else [5, 1.5, True, "1.0.3", "sw ä", [1, 2], {"a": 1}]
+        samples = [5, 1.5, True] if what == "state" else [5, 1.5, True, "1.0.3", "sw ä", [1, 2], {"a": 1}, {"hw": 2, "bootloader": 7}]
         badv = []
         for v in samples:
             stored = _json.dumps({"k": v}, sort_keys=True)
